@@ -118,7 +118,9 @@ func ParseHeaderDirective(header http.Header) *HeaderDirectives {
 			if t, err := time.Parse(http.TimeFormat, value); err == nil {
 				hd.Expires.value = typeutils.Some(t)
 			} else {
-				slog.Debug("Error parsing Expires header", "error", err, "value", value)
+				// An invalid date (such as "0") means the response is already expired (RFC 9111 section 5.3)
+				slog.Debug("Error parsing Expires header, treating it as already expired", "error", err, "value", value)
+				hd.Expires.value = typeutils.Some(time.Time{})
 			}
 		}
 	}
